@@ -23,6 +23,10 @@ HERE = os.path.dirname(os.path.dirname(os.path.abspath(__file__)))
 VENV_PY = '/venv/bin/python'
 
 
+class TreeBroken(Exception):
+    """The tree under test does not import (it would not pass its tests)."""
+
+
 def reflect(repo_root):
     env = dict(os.environ)
     env['PYTHONPATH'] = repo_root + os.pathsep + env.get('PYTHONPATH', '')
@@ -30,7 +34,7 @@ def reflect(repo_root):
     p = subprocess.run([VENV_PY, '-W', 'ignore', os.path.join(HERE, 'oracle', 'reflect.py')],
                        capture_output=True, text=True, env=env, cwd='/', timeout=120)
     if p.returncode != 0:
-        raise RuntimeError('reflection failed: %s' % p.stderr[-2000:])
+        raise TreeBroken('the package does not import under %s: %s' % (VENV_PY, p.stderr[-1500:]))
     return json.loads(p.stdout)
 
 
@@ -63,8 +67,9 @@ class Contract(object):
     def __init__(self, target, params=None, cases=None, requires=(), ensures=(), raises=None,
                  raises_ensures=None, returns=None, assigns=(), loops=None, inline=(), specns=None,
                  prop=None, note='', pure=False, may_raise_any=False, trusted=False, exc_ensures=(),
-                 setup=None, model=None):
+                 setup=None, model=None, raises_local=None):
         self.target = target
+        self.raises_local = raises_local or {}   # class -> condition over the locals at the raise
         self.model = model              # python summary used at call sites (trusted contracts)
         self.params = params or {}
         self.cases = cases              # list of (label, params dict) overriding params
@@ -114,6 +119,87 @@ class Engine(object):
         self.loops = Loops(self)
         self.interp = Interp(self)
         self.func_attr_hooks = []
+        self._register_builtin_specs()
+
+    def _register_builtin_specs(self):
+        from . import models as M
+
+        def calls(ctx):
+            return [e for e in ctx.trace if e[0] == 'call']
+
+        def _idx(ctx, i):
+            n = Z.simp(TInt.to_z(i))
+            return n.as_long()
+
+        @self.spec('ncalls')
+        def ncalls(I, ctx):
+            return VInt(len(calls(ctx)))
+
+        @self.spec('call_fn')
+        def call_fn(I, ctx, i):
+            return calls(ctx)[_idx(ctx, i)][1]
+
+        @self.spec('call_nargs')
+        def call_nargs(I, ctx, i):
+            return VInt(len(calls(ctx)[_idx(ctx, i)][2]))
+
+        @self.spec('call_arg')
+        def call_arg(I, ctx, i, j):
+            return calls(ctx)[_idx(ctx, i)][2][_idx(ctx, j)]
+
+        @self.spec('call_kw')
+        def call_kw(I, ctx, i):
+            ev = calls(ctx)[_idx(ctx, i)]
+            kwargs, star = ev[3], ev[4]
+            if star is not None:
+                dom, arr, kt, vt = M.dict_sym(I, ctx, star)
+            else:
+                kt, vt = TStr, TObj()
+                dom, arr = Z.empty_set(Z.Str), z3.K(Z.Str, Z.NONE)
+            for k, x in kwargs.items():
+                dom = z3.SetAdd(dom, z3.StringVal(k))
+                arr = z3.Store(arr, z3.StringVal(k), vt.to_z(x, ctx))
+            return VMap(dom, arr, kt, vt)
+
+        @self.spec('implies')
+        def implies(I, ctx, a, b):
+            return VBool(z3.Implies(I.truth(ctx, a), I.truth(ctx, b)))
+
+        @self.spec('keys')
+        def keys(I, ctx, d):
+            dm = M.dict_sym(I, ctx, I.resolve(ctx, d))
+            return VSet(dm[0], dm[2])
+
+        @self.spec('subset')
+        def subset(I, ctx, a, b):
+            sa = M.iterable_as_set(I, ctx, a)
+            sb = M.iterable_as_set(I, ctx, b)
+            if sa[0] is None:
+                return VBool(True)
+            if sb[0] is None:
+                return VBool(sa[0] == Z.empty_set(sa[1].zsort))
+            return VBool(z3.IsSubset(sa[0], sb[0]))
+
+        @self.spec('forall_keys')
+        def forall_keys(I, ctx, d, fn):
+            """forall k in keys(d): fn(k, d[k])"""
+            dom, arr, kt, vt = M.dict_sym(I, ctx, I.resolve(ctx, d))
+            k = z3.Const(Z.fresh_name('qk'), kt.zsort)
+            body = I.call(ctx, self._specframe_for_lambda(fn), fn, [kt.wrap(k), vt.wrap(z3.Select(arr, k))], {})
+            return VBool(z3.ForAll([k], z3.Implies(z3.IsMember(k, dom), I.truth(ctx, body))))
+
+        @self.spec('forall_in')
+        def forall_in(I, ctx, s, fn):
+            z, et = M.iterable_as_set(I, ctx, s)
+            if z is None:
+                return VBool(True)
+            k = z3.Const(Z.fresh_name('qe'), et.zsort)
+            body = I.call(ctx, self._specframe_for_lambda(fn), fn, [et.wrap(k)], {})
+            return VBool(z3.ForAll([k], z3.Implies(z3.IsMember(k, z), I.truth(ctx, body))))
+
+    def _specframe_for_lambda(self, fn):
+        fr = fn.closure if getattr(fn, 'closure', None) is not None else Frame(None, 'spec')
+        return fr
 
     # ------------------------------------------------------------------
     def push(self, trail):
@@ -572,7 +658,11 @@ class Engine(object):
     # ------------------------------------------------------------------
     # verification of one function against its contract
 
-    def verify(self, target, budget_paths=4000):
+    def verify(self, target, budget_paths=4000, ground=None):
+        """ground=n: refutation mode -- every sequence parameter gets concrete
+        length n (loops unroll, spec folds unfold).  Ground runs only ever
+        produce counterexamples; nothing is proved by them."""
+        self.ground = ground
         c = self.contracts[target]
         res = FunctionResult(target)
         got = self.repo.find(target)
@@ -654,6 +744,10 @@ class Engine(object):
         fr = Frame(mod, qual, loc, cls=cls)
         for n in names:
             t = params[n]
+            if getattr(self, 'ground', None) is not None and isinstance(t, (TSeq, TList)):
+                items = [t.et.fresh(ctx, '%s_%d' % (n, k)) for k in range(self.ground)]
+                loc[n] = VTuple(items) if isinstance(t, TSeq) else ctx.alloc(HList(items=items))
+                continue
             loc[n] = t.fresh(ctx, n) if isinstance(t, T) else t(self, ctx, n)
         if names and names[0] in ('self', 'cls') and cls is not None:
             fr.selfv = loc[names[0]]
@@ -711,6 +805,7 @@ class Engine(object):
         exc = rs.exc
         lineno = getattr(rs.node, 'lineno', None)
         sfr = self._post_frame(fr, old, {'_exc': exc})
+        ctx.raise_frame = fr
         matches = []
         for cls, cond in c.raises.items():
             m = Z.simp(I.exc_isinstance(ctx, exc, cls))
@@ -735,6 +830,13 @@ class Engine(object):
         for j, e in enumerate(c.exc_ensures):
             g = self.eval_spec(ctx, sfr, e)
             ctx.oblige('%s/exc_ensures[%d]' % (fname, j), g, 'K', rs.node, note=str(e))
+        for cls, cond in c.raises_local.items():
+            m = Z.simp(I.exc_isinstance(ctx, exc, cls))
+            if Z.is_false(m):
+                continue
+            g = self.eval_spec(ctx, sfr, cond)
+            ctx.oblige('%s/raises[%s]/only-if' % (fname, cls.rsplit('.', 1)[-1]), z3.Implies(m, g), 'K', rs.node,
+                       note='%s raised at line %s only when %r' % (cls, lineno, cond))
 
     def describe_exc(self, ctx, exc):
         if isinstance(exc, VRef):
